@@ -33,7 +33,9 @@ func NewEmailDomainValidator(allowedDomains []string) EmailDomainValidator {
 	emailDomains := make([]string, 0, len(allowedDomains))
 
 	for _, domain := range allowedDomains {
-		if domain == "*" {
+		if domain == "*" && len(allowedDomains) == 1 {
+			// only a lone "*" is the wildcard; next to other entries it is an ordinary
+			// domain and gets the "@" prefix, so it cannot match as a bare suffix
 			emailDomains = append(emailDomains, domain)
 		} else {
 			emailDomain := fmt.Sprintf("@%s", strings.ToLower(domain))
